@@ -10,5 +10,6 @@ import (
 	_ "verifharness/internal/c06"
 	_ "verifharness/internal/c07"
 	_ "verifharness/internal/c11"
+	_ "verifharness/internal/c13"
 	_ "verifharness/internal/c17"
 )
